@@ -23,7 +23,7 @@ def out_universe(env) -> list:
         prio = (r["todo_priority"] or "") if kind != "-" else ""
         text = kind + (f" {prio}" if kind in "o<>" else "") + " " + r["body"].strip()      # PageSem!RenderNote (bound by C12)
         out.append({
-            "zid": r["zid"], "text": T(text), "alpha": T(text + "\n"), "page": T(r["page_path"]), "line": r["line_no"],
+            "zid": r["zid"], "text": T(text), "alpha": T(text + "\n"), "page": T(r["page_path"]), "line": r["line_no"], "linetxt": T(str(r["line_no"])),
             "kind": kind, "prio": T(prio), "cd": bq.ymd(r["create_date"]), "md": bq.ymd(r["modify_date"]),
             "tags": {ty: [T(x) for x in r[ty]] for ty in ("areas", "contexts", "people", "projects")},
             "vals": [{"key": T(k), "val": T(v)} for k, v in r["properties"].items()],
